@@ -54,7 +54,8 @@ fn go<T: Scalar, const D: usize>(h: &C06, out: &mut Outcome<T>) {
     let one = T::lit(1.0);
     match k {
         None => out.prove(format!("selected edge {} belongs to the subgraph", edge), one, Rel::Eq, zero),
-        Some(k) => {
+        Some(k) if h.fp => {
+            // binary64: the running sum is rounded, so the boundaries are known up to 1e-12
             let tol = 1e-12;
             let hi = cdf[k].1.to_f64().unwrap();
             let lo = if k == 0 { 0.0 } else { cdf[k - 1].1.to_f64().unwrap() };
@@ -62,6 +63,31 @@ fn go<T: Scalar, const D: usize>(h: &C06, out: &mut Outcome<T>) {
             out.prove(format!("edge {}: c_(k-1) - 1e-12 <= u", edge), T::lit(lo - tol), Rel::Le, u);
             if k > 0 {
                 out.twin(format!("twin: edge {} chosen only for u <= c_(k-1) - 1e-9", edge), u, Rel::Le, T::lit(lo - 1e-9));
+            }
+        }
+        Some(k) => {
+            // exact arithmetic: the running sums of the table's own entries are exact rationals, whatever the
+            // order of operations, so the tie rule is checked exactly: c_(k-1) < u <= c_k
+            use num::rational::BigRational;
+            let bq = |f: f64| BigRational::from_float(f).expect("finite table entry");
+            let jg = bq(table.table[h.mask as usize].j_function);
+            let mut acc = BigRational::from_integer(0.into());
+            let mut cum: Vec<BigRational> = vec![];
+            for (e, _) in &cdf {
+                let sub = (h.mask & !(1u64 << e)) as usize;
+                acc += bq(table.table[sub].j_function) / (&jg * bq(table.table[sub].generalized_dod));
+                cum.push(acc.clone());
+            }
+            // the table itself agrees with the oracle (C04's subject; asserted here so that a wrong table cannot hide)
+            let diff = (&cum[k] - &cdf[k].1).to_f64().unwrap().abs();
+            out.prove(format!("edge {}: table running sum within 1e-12 of the exact distribution", edge), T::lit(diff), Rel::Le, T::lit(1e-12));
+            let last = k + 1 == cdf.len();
+            if !last {
+                out.prove(format!("edge {}: u <= running sum (first edge that reaches u)", edge), u, Rel::Le, T::big(&cum[k]));
+            }
+            if k > 0 {
+                out.prove(format!("edge {}: previous running sum < u", edge), T::big(&cum[k - 1]), Rel::Lt, u);
+                out.twin(format!("twin: edge {} chosen only for u <= c_(k-1)", edge), u, Rel::Le, T::big(&cum[k - 1]));
             }
         }
     }
